@@ -127,18 +127,19 @@ func NewEnvManager(tm *task.Manager, incomingEventCh chan event.Event) *Manager 
 					// If we got a TasksReleasedEvent, it must be matched with a pending
 					// environment teardown.
 
-					instance.mu.RLock()
+					// The channel registered for this answer is looked up and retired in one critical section:
+					// once the teardown has its answer it may register the channel for its next release round at
+					// once, and that new entry must not be the one we delete.
+					instance.mu.Lock()
 					thisEnvCh, ok := instance.pendingTeardownsCh[typedEvent.GetEnvironmentId()]
-					instance.mu.RUnlock()
+					if ok {
+						delete(instance.pendingTeardownsCh, typedEvent.GetEnvironmentId())
+					}
+					instance.mu.Unlock()
 
 					if ok {
 						thisEnvCh <- typedEvent
-
-						instance.mu.Lock()
 						close(thisEnvCh)
-						delete(instance.pendingTeardownsCh, typedEvent.GetEnvironmentId())
-						instance.mu.Unlock()
-
 					} else {
 						// If there is no pending environment teardown, it means that the released task stopped
 						// unexpectedly. In that case, the environment should get torn-down only if the task
@@ -153,12 +154,10 @@ func NewEnvManager(tm *task.Manager, incomingEventCh chan event.Event) *Manager 
 							}
 						}
 						if releaseCriticalTask {
-							thisEnvCh <- typedEvent
-
-							instance.mu.Lock()
-							close(thisEnvCh)
-							delete(instance.pendingTeardownsCh, typedEvent.GetEnvironmentId())
-							instance.mu.Unlock()
+							// nobody waits for this answer (there is no channel to deliver it on)
+							log.WithPrefix("scheduler").
+								WithField("partition", typedEvent.GetEnvironmentId().String()).
+								Warn("critical task released without a pending environment teardown")
 						}
 					}
 
